@@ -288,5 +288,16 @@ example : shape ⟨3, 4⟩ [9, 10] = .ok [1, 2] := by decide
 example : mapData ⟨3, 4⟩ (fun p => p == 4 || p == 9) (fun p => p) = .ok [some 4, none, none, some 9] := by
   decide
 example : dataSlices ⟨1, 1⟩ [0] = .ok [] := by decide
+-- the single-point grid (finding C11-single-point-grid): 0-dimensional, every int/slice key and row/col/
+-- get_map_data fail in the model exactly as in the code
+example : rows ⟨1, 1⟩ (fun _ => true) = .error .degenerate := by decide
+example : (mapData ⟨1, 1⟩ (fun _ => true) (fun p => p)) = .error .degenerate := by decide
+example : (getItem ⟨⟨1, 1⟩, fun _ => 0, []⟩ (fun _ => true) (.idx [.int 0])).map (ids 1)
+    = .error .tooManyIndices := by decide
+-- an empty selection has no shape, and slicing it raises (as `np.min` of an empty array does)
+example : shape ⟨3, 4⟩ [] = .error .emptyReduction := by decide
+example : PySlice.indices 5 none none (some (-2)) = some [4, 2, 0] := by decide
+example : PySlice.indices 5 (some (-2)) none none = some [3, 4] := by decide
+example : PySlice.indices 5 (some 1) (some 100) (some 0) = none := by decide
 
 end Orix.C11
